@@ -614,7 +614,22 @@ func (w *wireCtx) call(fn *ssa.Function, c *ssa.Call, d map[ssa.Value]bool, cur 
 				roots[f.Params[i]] = true
 			}
 		}
+		// constant arguments are visible inside (readN(rd, 16) reads a fixed block of 16)
+		savedSubst := activeSubst
+		bound := map[*ssa.Parameter]ssa.Value{}
+		for k, v := range savedSubst {
+			bound[k] = v
+		}
+		for i, a := range cc.Args {
+			if i < len(f.Params) {
+				if k, isK := strip(a).(*ssa.Const); isK {
+					bound[f.Params[i]] = k
+				}
+			}
+		}
+		activeSubst = bound
 		s, e := w.build(f, roots, depth+1)
+		activeSubst = savedSubst
 		w.nfa.edge(cur, s, "")
 		return e
 	}
